@@ -18,6 +18,7 @@ Operation codes
   6 with auto_checkpoint(path): fit(); sample(smc)
   7 resume_from_file(path) then sample()   (skipped if the file cannot be resumed)
   8 with auto_checkpoint(path): sample(smc); fit(); sample(smc)
+  9 with auto_checkpoint(path): sample(smc); fit(overwrite=True); sample(smc)
 """
 
 import json
@@ -220,13 +221,22 @@ def _region(op, before, resumed, clause):
     D8d: an instance obtained from resume_from_file keeps checkpointing into
          the file but never rewrites /aspire_config (save_config=False), so a
          checkpoint written by a sampler other than the saved one sits next
-         to a configuration that does not name it."""
+         to a configuration that does not name it.
+    D8e: an instance obtained from resume_from_file resumes from the checkpoint
+         bytes captured at construction on EVERY later sample_posterior call,
+         also after it has been refitted: the old population is then continued
+         under the new proposal."""
     had_flow, had_ckpt = before
     if clause == "C":
-        if resumed and op in (4, 5, 6, 8):
+        if resumed and op in (4, 5, 6, 8, 9):
             return "C14-D8d"
         if op == 3 and had_ckpt:
             return "C14-D8c"
+        return None
+    if clause == "M":
+        # the resumed sampler was handed a population weighted under another proposal
+        if resumed and op in (0, 1, 2, 3, 4, 5, 6, 8, 9):
+            return "C14-D8e"
         return None
     if clause == "F":
         if op == 8 or (op in (3, 4, 5, 6, 7) and had_flow):
@@ -266,6 +276,11 @@ def _apply(a, op):
             a.sample_posterior(n_samples=1, sampler="smc", preconditioning="none")
             a.fit(d)
             a.sample_posterior(n_samples=1, sampler="smc", preconditioning="none")
+    elif op == 9:
+        with a.auto_checkpoint(PATH):
+            a.sample_posterior(n_samples=1, sampler="smc", preconditioning="none")
+            a.fit(d, overwrite=True)
+            a.sample_posterior(n_samples=1, sampler="smc", preconditioning="none")
     return a
 
 
@@ -279,7 +294,7 @@ def _drive(prog: List[int], exclude_known: bool) -> bool:
         before = ("flow" in f, "checkpoint" in f)
         resumed = hasattr(a, "_resume_sampler_config") or (getattr(a, "_checkpoint_defaults", None) or {}).get("save_config") is False
         a = _apply(a, op)
-        clause = _violation() or ("M" if STATE["mixed_resume"] else "")
+        clause = ("M" if STATE["mixed_resume"] else "") or _violation()
         if clause:
             if exclude_known and _region(op, before, resumed, clause) in OPEN:
                 return True
@@ -294,7 +309,7 @@ def _drive(prog: List[int], exclude_known: bool) -> bool:
 def _run_f0(rest: List[int]) -> bool:
     """
     pre: len(rest) <= 2
-    pre: all(0 <= k <= 8 for k in rest)
+    pre: all(0 <= k <= 9 for k in rest)
     post: _ == True
     """
     return _drive([0] + rest, True)
@@ -303,7 +318,7 @@ def _run_f0(rest: List[int]) -> bool:
 def _run4_f0(rest: List[int]) -> bool:
     """
     pre: len(rest) == 3
-    pre: all(0 <= k <= 8 for k in rest)
+    pre: all(0 <= k <= 9 for k in rest)
     post: _ == True
     """
     return _drive([0] + rest, True)
@@ -312,7 +327,7 @@ def _run4_f0(rest: List[int]) -> bool:
 def _run_f1(rest: List[int]) -> bool:
     """
     pre: len(rest) <= 2
-    pre: all(0 <= k <= 8 for k in rest)
+    pre: all(0 <= k <= 9 for k in rest)
     post: _ == True
     """
     return _drive([1] + rest, True)
@@ -321,7 +336,7 @@ def _run_f1(rest: List[int]) -> bool:
 def _run4_f1(rest: List[int]) -> bool:
     """
     pre: len(rest) == 3
-    pre: all(0 <= k <= 8 for k in rest)
+    pre: all(0 <= k <= 9 for k in rest)
     post: _ == True
     """
     return _drive([1] + rest, True)
@@ -330,7 +345,7 @@ def _run4_f1(rest: List[int]) -> bool:
 def _run_f2(rest: List[int]) -> bool:
     """
     pre: len(rest) <= 2
-    pre: all(0 <= k <= 8 for k in rest)
+    pre: all(0 <= k <= 9 for k in rest)
     post: _ == True
     """
     return _drive([2] + rest, True)
@@ -339,7 +354,7 @@ def _run_f2(rest: List[int]) -> bool:
 def _run4_f2(rest: List[int]) -> bool:
     """
     pre: len(rest) == 3
-    pre: all(0 <= k <= 8 for k in rest)
+    pre: all(0 <= k <= 9 for k in rest)
     post: _ == True
     """
     return _drive([2] + rest, True)
@@ -348,7 +363,7 @@ def _run4_f2(rest: List[int]) -> bool:
 def _run_f3(rest: List[int]) -> bool:
     """
     pre: len(rest) <= 2
-    pre: all(0 <= k <= 8 for k in rest)
+    pre: all(0 <= k <= 9 for k in rest)
     post: _ == True
     """
     return _drive([3] + rest, True)
@@ -357,7 +372,7 @@ def _run_f3(rest: List[int]) -> bool:
 def _run4_f3(rest: List[int]) -> bool:
     """
     pre: len(rest) == 3
-    pre: all(0 <= k <= 8 for k in rest)
+    pre: all(0 <= k <= 9 for k in rest)
     post: _ == True
     """
     return _drive([3] + rest, True)
@@ -366,7 +381,7 @@ def _run4_f3(rest: List[int]) -> bool:
 def _run_f4(rest: List[int]) -> bool:
     """
     pre: len(rest) <= 2
-    pre: all(0 <= k <= 8 for k in rest)
+    pre: all(0 <= k <= 9 for k in rest)
     post: _ == True
     """
     return _drive([4] + rest, True)
@@ -375,7 +390,7 @@ def _run_f4(rest: List[int]) -> bool:
 def _run4_f4(rest: List[int]) -> bool:
     """
     pre: len(rest) == 3
-    pre: all(0 <= k <= 8 for k in rest)
+    pre: all(0 <= k <= 9 for k in rest)
     post: _ == True
     """
     return _drive([4] + rest, True)
@@ -384,7 +399,7 @@ def _run4_f4(rest: List[int]) -> bool:
 def _run_f5(rest: List[int]) -> bool:
     """
     pre: len(rest) <= 2
-    pre: all(0 <= k <= 8 for k in rest)
+    pre: all(0 <= k <= 9 for k in rest)
     post: _ == True
     """
     return _drive([5] + rest, True)
@@ -393,7 +408,7 @@ def _run_f5(rest: List[int]) -> bool:
 def _run4_f5(rest: List[int]) -> bool:
     """
     pre: len(rest) == 3
-    pre: all(0 <= k <= 8 for k in rest)
+    pre: all(0 <= k <= 9 for k in rest)
     post: _ == True
     """
     return _drive([5] + rest, True)
@@ -402,7 +417,7 @@ def _run4_f5(rest: List[int]) -> bool:
 def _run_f6(rest: List[int]) -> bool:
     """
     pre: len(rest) <= 2
-    pre: all(0 <= k <= 8 for k in rest)
+    pre: all(0 <= k <= 9 for k in rest)
     post: _ == True
     """
     return _drive([6] + rest, True)
@@ -411,7 +426,7 @@ def _run_f6(rest: List[int]) -> bool:
 def _run4_f6(rest: List[int]) -> bool:
     """
     pre: len(rest) == 3
-    pre: all(0 <= k <= 8 for k in rest)
+    pre: all(0 <= k <= 9 for k in rest)
     post: _ == True
     """
     return _drive([6] + rest, True)
@@ -420,7 +435,7 @@ def _run4_f6(rest: List[int]) -> bool:
 def _run_f7(rest: List[int]) -> bool:
     """
     pre: len(rest) <= 2
-    pre: all(0 <= k <= 8 for k in rest)
+    pre: all(0 <= k <= 9 for k in rest)
     post: _ == True
     """
     return _drive([7] + rest, True)
@@ -429,7 +444,7 @@ def _run_f7(rest: List[int]) -> bool:
 def _run4_f7(rest: List[int]) -> bool:
     """
     pre: len(rest) == 3
-    pre: all(0 <= k <= 8 for k in rest)
+    pre: all(0 <= k <= 9 for k in rest)
     post: _ == True
     """
     return _drive([7] + rest, True)
@@ -438,7 +453,7 @@ def _run4_f7(rest: List[int]) -> bool:
 def _run_f8(rest: List[int]) -> bool:
     """
     pre: len(rest) <= 2
-    pre: all(0 <= k <= 8 for k in rest)
+    pre: all(0 <= k <= 9 for k in rest)
     post: _ == True
     """
     return _drive([8] + rest, True)
@@ -447,10 +462,28 @@ def _run_f8(rest: List[int]) -> bool:
 def _run4_f8(rest: List[int]) -> bool:
     """
     pre: len(rest) == 3
-    pre: all(0 <= k <= 8 for k in rest)
+    pre: all(0 <= k <= 9 for k in rest)
     post: _ == True
     """
     return _drive([8] + rest, True)
+
+
+def _run_f9(rest: List[int]) -> bool:
+    """
+    pre: len(rest) <= 2
+    pre: all(0 <= k <= 9 for k in rest)
+    post: _ == True
+    """
+    return _drive([9] + rest, True)
+
+
+def _run4_f9(rest: List[int]) -> bool:
+    """
+    pre: len(rest) == 3
+    pre: all(0 <= k <= 9 for k in rest)
+    post: _ == True
+    """
+    return _drive([9] + rest, True)
 
 
 def _raw(prog: List[int]) -> bool:
@@ -464,7 +497,7 @@ def _twin(prog: List[int]) -> bool:
     Reachability twin (must be refuted).
 
     pre: len(prog) <= 3
-    pre: all(0 <= k <= 8 for k in prog)
+    pre: all(0 <= k <= 9 for k in prog)
     post: _ == False
     """
     return _drive(prog, True)
